@@ -80,7 +80,7 @@ def check_case(ctx, case):
     var = case["var"]
     names = sorted(S.variables(s))
     occurs = var in names
-    if not C.varfree_in_scope(s):
+    if not C.tree_in_scope(s, [S.point_from_json(pj) for pj in case["points"]]):
         ctx.count("inputs_out_of_scope")
         return
     ctx.count("cases")
